@@ -339,7 +339,17 @@ class C19(core.Check):
             'description-without-value': lambda d: d.__setitem__('description', None),
             'origin-0': lambda d: d['general'].__setitem__('origin', 0),
             'symbol-value-number': lambda d: d.__setitem__('predefined', {'symbols': [{'name': 'SYM5', 'value': 5}]}),
-            'constant-value-text': lambda d: d.__setitem__('predefined', {'constants': [{'name': 'K5', 'value': '5'}]})}
+            'constant-value-text': lambda d: d.__setitem__('predefined', {'constants': [{'name': 'K5', 'value': '5'}]}),
+            # ranges that are as narrow as a range can be without being inverted
+            'numeric_bytecode-one-value-range': lambda d: d['operand_sets'].__setitem__('one', {'operand_values': {'nb': {
+                'type': 'numeric_bytecode', 'bytecode': {'size': 4, 'min': 5, 'max': 5}}}}),
+            'numeric_bytecode-range-0-0': lambda d: d['operand_sets'].__setitem__('one', {'operand_values': {'nb': {
+                'type': 'numeric_bytecode', 'bytecode': {'size': 4, 'min': 0, 'max': 0}}}}),
+            'relative_address-one-value-range': lambda d: d['operand_sets'].__setitem__('one', {'operand_values': {'ra': {
+                'type': 'relative_address', 'argument': {'size': 8, 'byte_align': True, 'min': 2, 'max': 2}}}}),
+            'relative_address-range-0-0': lambda d: d['operand_sets'].__setitem__('one', {'operand_values': {'ra': {
+                'type': 'relative_address', 'argument': {'size': 8, 'byte_align': True, 'min': 0, 'max': 0}}}}),
+            'memory-zone-of-one-address': lambda d: d.__setitem__('predefined', {'memory_zones': [{'name': 'Z1', 'start': 64, 'end': 64}]})}
         import copy
         for sname, f_ in shapes.items():
             for fmt in ('json', 'yaml'):
